@@ -145,6 +145,304 @@ theorem noIcaseBackref_spec {prog : Prog} (h : noIcaseBackref prog = true) (ip g
   rw [heq] at this
   simp at this
 
+/-- Every instruction at which the same run can continue after instruction `ip`. -/
+def allSuccs (prog : Prog) (ip : Nat) : Insn → List Nat
+  | .goal | .justFail => []
+  | .jump t => [t]
+  | .alt s => [ip + 1, s]
+  | .enterLoop _ _ _ _ exit => [ip + 1, exit]
+  | .loopAgain b =>
+    match prog.insns[b]? with
+    | some (.enterLoop _ _ _ _ exit) => [b + 1, exit]
+    | _ => []
+  | .lookahead _ _ _ k | .lookbehind _ _ _ k => [k]
+  | .loop1 _ _ _ => [ip + 2]
+  | _ => [ip + 1]
+
+/-- The capture group written by an instruction. -/
+def groupOf : Insn → Option Nat
+  | .beginCaptureGroup g | .endCaptureGroup g | .resetCaptureGroup g => some g
+  | _ => none
+
+
+/-! ## Ordering of capture ranges (`start ≤ end`): the certificate
+
+`backref_icase` slices the haystack with the unchecked range `start..end` of a group. That
+`start ≤ end` holds whenever both are set is a consequence of the emitter's discipline (a group is
+reset at the start of every iteration of an enclosing loop), which the structural check `wfProg`
+does not capture. It is captured by a data-flow certificate: for every reachable instruction and
+every group one of the facts
+
+* `1` (*clean*): the group is `(None, None)`;
+* `2` (*open*): `begin` has been executed in the current run, `end` not yet — forwards:
+  `end = None` and `start ≤ pos`; backwards: `start = None` and `pos ≤ end`;
+* `0` (*unknown*): `start ≤ end` if both are set.
+
+`checkOrd` checks the certificate locally: `begin g` needs *clean*, `end g` needs *open*, and the fact
+at every successor follows from the fact after the instruction. -/
+
+open Regress.VM.Bt (GroupData)
+
+abbrev OrdCert := Array (Option (Array Nat))
+
+def Ordered (gd : GroupData) : Prop := ∀ s e, gd.start = some s → gd.end_ = some e → s ≤ e
+
+/-- The meaning of a fact `k` about one group at position `pos` of a run in direction `fwd`. -/
+def Sem (fwd : Bool) (pos k : Nat) (gd : GroupData) : Prop :=
+  if k = 1 then gd.start = none ∧ gd.end_ = none
+  else if k = 2 then
+    (if fwd = true then gd.end_ = none ∧ ∀ s, gd.start = some s → s ≤ pos
+     else gd.start = none ∧ ∀ e, gd.end_ = some e → pos ≤ e)
+  else Ordered gd
+
+def VecOK (fwd : Bool) (pos : Nat) (v : Array Nat) (gs : Array GroupData) : Prop :=
+  ∀ (g : Nat) (gd : GroupData), gs[g]? = some gd → ∃ k, v[g]? = some k ∧ Sem fwd pos k gd
+
+/-- The certificate holds at a configuration. -/
+def OrdAt (c : OrdCert) (fwd : Bool) (ip pos : Nat) (gs : Array GroupData) : Prop :=
+  ∃ v, c[ip]? = some (some v) ∧ VecOK fwd pos v gs
+
+/-- `vt` claims at most what `w` claims. -/
+def weaker (vt w : Array Nat) : Bool :=
+  (List.range (max vt.size w.size)).all (fun g => vt[g]? == some 0 || vt[g]? == w[g]?)
+
+/-- The facts after a capture group instruction. -/
+def outVec (insn : Insn) (v : Array Nat) : Array Nat :=
+  match insn with
+  | .beginCaptureGroup g => v.setIfInBounds g 2
+  | .endCaptureGroup g => v.setIfInBounds g 0
+  | .resetCaptureGroup g => v.setIfInBounds g 1
+  | _ => v
+
+/-- Facts at the start of a look-around body (another direction: *open* facts are forgotten). -/
+def lookBodyVec (v : Array Nat) : Array Nat := v.map (fun x => if x == 2 then 0 else x)
+
+/-- Facts at the continuation of a look-around: the groups of a positive look-around are unknown. -/
+def lookContVec (neg : Bool) (sg eg : Nat) (v : Array Nat) : Array Nat :=
+  v.mapIdx (fun g x => if !neg && decide (sg ≤ g) && decide (g < eg) then 0 else x)
+
+def ordEdges (prog : Prog) (ip : Nat) (insn : Insn) (v : Array Nat) : List (Nat × Array Nat) :=
+  match insn with
+  | .lookahead neg sg eg k => [(ip + 1, lookBodyVec v), (k, lookContVec neg sg eg v)]
+  | .lookbehind neg sg eg k => [(ip + 1, lookBodyVec v), (k, lookContVec neg sg eg v)]
+  | _ => (allSuccs prog ip insn).map (fun t => (t, outVec insn v))
+
+def checkOrdInsn (prog : Prog) (c : OrdCert) (ip : Nat) (insn : Insn) : Bool :=
+  match c[ip]? with
+  | some (some v) =>
+    (match insn with
+     | .beginCaptureGroup g => v[g]? == some 1
+     | .endCaptureGroup g => v[g]? == some 2
+     | _ => true) &&
+    (ordEdges prog ip insn v).all (fun tw =>
+      match c[tw.1]? with
+      | some (some vt) => weaker vt tw.2
+      | _ => false)
+  | some none => true
+  | none => false
+
+/-- **The ordering clause of `wfProg'`.** -/
+def checkOrd (prog : Prog) (c : OrdCert) : Bool :=
+  c[0]? == some (some (Array.replicate prog.groups 1)) &&
+  (List.range prog.insns.size).all (fun ip =>
+    match prog.insns[ip]? with
+    | some insn => checkOrdInsn prog c ip insn
+    | none => false)
+
+/-! The canonical ordering certificate: a forward data-flow analysis (untrusted; `checkOrd`
+validates the result). -/
+
+/-- Meet of two fact vectors: keep a fact only where both agree. -/
+def meetVec (a b : Array Nat) : Array Nat :=
+  (a.zip b).map (fun xy => if xy.1 == xy.2 then xy.1 else 0)
+
+def ordPropagate (c : OrdCert) (t : Nat) (w : Array Nat) : OrdCert :=
+  match c[t]? with
+  | some none => c.setIfInBounds t (some w)
+  | some (some vt) => c.setIfInBounds t (some (meetVec vt w))
+  | none => c
+
+def ordStepIp (prog : Prog) (c : OrdCert) (ip : Nat) : OrdCert :=
+  match prog.insns[ip]?, c[ip]? with
+  | some insn, some (some v) =>
+    (ordEdges prog ip insn v).foldl (fun c tw => ordPropagate c tw.1 tw.2) c
+  | _, _ => c
+
+def ordSweep (prog : Prog) (c : OrdCert) : OrdCert :=
+  (List.range prog.insns.size).foldl (ordStepIp prog) c
+
+def mkOrdLoop (prog : Prog) : Nat → OrdCert → OrdCert
+  | 0, c => c
+  | k + 1, c =>
+    let c' := ordSweep prog c
+    if c' == c then c else mkOrdLoop prog k c'
+
+def mkOrd (prog : Prog) : OrdCert :=
+  mkOrdLoop prog (2 * prog.insns.size + 2)
+    ((Array.replicate prog.insns.size none).setIfInBounds 0 (some (Array.replicate prog.groups 1)))
+
+theorem checkOrd_spec {prog : Prog} {c : OrdCert} (h : checkOrd prog c = true) {ip : Nat}
+    {insn : Insn} {v : Array Nat} (hi : prog.insns[ip]? = some insn) (hv : c[ip]? = some (some v)) :
+    (∀ g, insn = .beginCaptureGroup g → v[g]? = some 1) ∧
+    (∀ g, insn = .endCaptureGroup g → v[g]? = some 2) ∧
+    ∀ t w, (t, w) ∈ ordEdges prog ip insn v → ∃ vt, c[t]? = some (some vt) ∧ weaker vt w = true := by
+  simp only [checkOrd, Bool.and_eq_true, List.all_eq_true, List.mem_range] at h
+  have := h.2 ip (lt_of_getElem?_eq_some hi)
+  rw [hi] at this
+  simp only [checkOrdInsn, hv, Bool.and_eq_true, List.all_eq_true] at this
+  obtain ⟨h1, h2⟩ := this
+  refine ⟨?_, ?_, ?_⟩
+  · intro g hg; subst hg; simpa using h1
+  · intro g hg; subst hg; simpa using h1
+  · intro t w htw
+    have := h2 (t, w) htw
+    simp only at this
+    cases hc : c[t]? with
+    | none => rw [hc] at this; cases this
+    | some o =>
+      cases o with
+      | none => rw [hc] at this; cases this
+      | some vt => rw [hc] at this; exact ⟨vt, rfl, this⟩
+
+theorem sem_ordered {fwd : Bool} {pos k : Nat} {gd : GroupData} (h : Sem fwd pos k gd) : Ordered gd := by
+  unfold Sem at h
+  intro s e hs he
+  split at h
+  · rw [h.1] at hs; cases hs
+  · split at h
+    · split at h
+      · rw [h.1] at he; cases he
+      · rw [h.1] at hs; cases hs
+    · exact h s e hs he
+
+theorem sem_mono {fwd : Bool} {pos pos' k : Nat} {gd : GroupData} (h : Sem fwd pos k gd)
+    (hm : MovedLe fwd pos pos') : Sem fwd pos' k gd := by
+  unfold Sem at h ⊢
+  split
+  · rename_i hk; simpa [hk] using h
+  · rename_i hk1
+    simp only [hk1, if_false] at h
+    split
+    · rename_i hk2
+      simp only [hk2, if_true] at h
+      cases fwd with
+      | true =>
+        simp only [if_true] at h ⊢
+        exact ⟨h.1, fun s hs => Nat.le_trans (h.2 s hs) (hm.1 rfl)⟩
+      | false =>
+        simp only [Bool.false_eq_true, if_false] at h ⊢
+        exact ⟨h.1, fun e he => Nat.le_trans (hm.2 rfl) (h.2 e he)⟩
+    · rename_i hk2; simpa [hk2] using h
+
+theorem sem_zero {fwd : Bool} {pos : Nat} {gd : GroupData} (h : Ordered gd) : Sem fwd pos 0 gd := by
+  simp [Sem]; exact h
+
+theorem VecOK.mono {fwd : Bool} {pos pos' : Nat} {v : Array Nat} {gs : Array GroupData}
+    (h : VecOK fwd pos v gs) (hm : MovedLe fwd pos pos') : VecOK fwd pos' v gs := by
+  intro g gd hg
+  obtain ⟨k, hk, hs⟩ := h g gd hg
+  exact ⟨k, hk, sem_mono hs hm⟩
+
+theorem VecOK.weaken {fwd : Bool} {pos : Nat} {vt w : Array Nat} {gs : Array GroupData}
+    (h : VecOK fwd pos w gs) (hw : weaker vt w = true) : VecOK fwd pos vt gs := by
+  intro g gd hg
+  obtain ⟨k, hk, hs⟩ := h g gd hg
+  simp only [weaker, List.all_eq_true, List.mem_range, Bool.or_eq_true, beq_iff_eq] at hw
+  have hlt : g < max vt.size w.size := by
+    have := lt_of_getElem?_eq_some hk; omega
+  rcases hw g hlt with h0 | h1
+  · exact ⟨0, h0, sem_zero (sem_ordered hs)⟩
+  · exact ⟨k, by rw [h1, hk], hs⟩
+
+theorem VecOK.ordered {fwd : Bool} {pos : Nat} {v : Array Nat} {gs : Array GroupData}
+    (h : VecOK fwd pos v gs) : ∀ (g : Nat) (gd : GroupData), gs[g]? = some gd → Ordered gd := by
+  intro g gd hg
+  obtain ⟨k, _, hs⟩ := h g gd hg
+  exact sem_ordered hs
+
+theorem VecOK.setGroup {fwd : Bool} {pos : Nat} {v : Array Nat} {gs : Array GroupData}
+    (h : VecOK fwd pos v gs) (g k : Nat) {gd' : GroupData} (hs : Sem fwd pos k gd') :
+    VecOK fwd pos (v.setIfInBounds g k) (gs.setIfInBounds g gd') := by
+  intro g' gd hg
+  simp only [Array.getElem?_setIfInBounds] at hg ⊢
+  by_cases hgg : g = g'
+  · subst hgg
+    simp only [if_true] at hg ⊢
+    split at hg
+    · rename_i hlt
+      cases hg
+      obtain ⟨k0, hk0, _⟩ := h g gs[g] (Array.getElem?_eq_getElem hlt)
+      have := lt_of_getElem?_eq_some hk0
+      exact ⟨k, by simp [this], hs⟩
+    · cases hg
+  · simp only [hgg, if_false] at hg ⊢
+    exact h g' gd hg
+
+theorem VecOK.lookBody {fwd d : Bool} {pos : Nat} {v : Array Nat} {gs : Array GroupData}
+    (h : VecOK fwd pos v gs) : VecOK d pos (lookBodyVec v) gs := by
+  intro g gd hg
+  obtain ⟨k, hk, hs⟩ := h g gd hg
+  refine ⟨if k == 2 then 0 else k, by simp [lookBodyVec, hk], ?_⟩
+  by_cases h2 : k = 2
+  · simp only [h2, beq_self_eq_true, if_true]; exact sem_zero (sem_ordered hs)
+  · have : (k == 2) = false := by simpa using h2
+    simp only [this, Bool.false_eq_true, if_false]
+    unfold Sem at hs ⊢
+    simp only [h2, if_false] at hs ⊢
+    exact hs
+
+theorem VecOK.lookContNeg {fwd : Bool} {pos : Nat} {v : Array Nat} {gs : Array GroupData} {sg eg : Nat}
+    (h : VecOK fwd pos v gs) : VecOK fwd pos (lookContVec true sg eg v) gs := by
+  intro g gd hg
+  obtain ⟨k, hk, hs⟩ := h g gd hg
+  exact ⟨k, by simp [lookContVec, hk], hs⟩
+
+theorem VecOK.lookCont {fwd : Bool} {pos : Nat} {v : Array Nat} {gs gs' : Array GroupData}
+    {sg eg : Nat} (h : VecOK fwd pos v gs) (hsz : gs'.size = gs.size)
+    (hag : ∀ g : Nat, ¬ (sg ≤ g ∧ g < eg) → gs'[g]? = gs[g]?)
+    (hord : ∀ (g : Nat) (gd : GroupData), gs'[g]? = some gd → Ordered gd) :
+    VecOK fwd pos (lookContVec false sg eg v) gs' := by
+  intro g gd hg
+  have hlt : g < gs.size := by have := lt_of_getElem?_eq_some hg; omega
+  obtain ⟨k, hk, hs⟩ := h g gs[g] (Array.getElem?_eq_getElem hlt)
+  by_cases hin : sg ≤ g ∧ g < eg
+  · exact ⟨0, by simp [lookContVec, hk, hin.1, hin.2], sem_zero (hord g gd hg)⟩
+  · rw [hag g hin, Array.getElem?_eq_getElem hlt] at hg
+    cases hg
+    refine ⟨k, ?_, hs⟩
+    have : (decide (sg ≤ g) && decide (g < eg)) = false := by
+      simp only [Bool.and_eq_false_imp, decide_eq_true_eq, decide_eq_false_iff_not]; omega
+    simp only [lookContVec, Array.getElem?_mapIdx, hk, Option.map_some, Bool.not_false, Bool.true_and,
+      this, Bool.false_eq_true, if_false]
+
+theorem sem_begin {fwd : Bool} {pos : Nat} {cg : GroupData} (h : Sem fwd pos 1 cg) :
+    Sem fwd pos 2 (if fwd = true then { cg with start := some pos } else { cg with end_ := some pos }) := by
+  simp only [Sem, if_true] at h
+  cases fwd with
+  | true => simp [Sem, h.2]
+  | false => simp [Sem, h.1]
+
+theorem sem_end {fwd : Bool} {pos : Nat} {cg : GroupData} (h : Sem fwd pos 2 cg) :
+    Sem fwd pos 0 (if fwd = true then { cg with end_ := some pos } else { cg with start := some pos }) := by
+  apply sem_zero
+  cases fwd with
+  | true =>
+    simp [Sem] at h
+    intro s e hs he
+    simp only [if_true] at hs he
+    cases he
+    exact h.2 s hs
+  | false =>
+    simp [Sem] at h
+    intro s e hs he
+    simp only [Bool.false_eq_true, if_false] at hs he
+    cases hs
+    exact h.2 e he
+
+theorem sem_reset (fwd : Bool) (pos : Nat) : Sem fwd pos 1 { start := none, end_ := none } := by
+  simp [Sem]
+
+
 /-! ## Kind-independent facts about the byte-level primitives -/
 
 theorem nextByte_ok (inp : Input) (fwd : Bool) {pos : Nat} (hp : pos ≤ inp.len) :
@@ -437,7 +735,7 @@ theorem backrefIcase_ascii {inp : Input} (hk : inp.kind = .ascii) (fwd : Bool) {
   unfold backrefIcase
   have hc : ¬ (decide (rs > re) || decide (re > inp.bytes.size)) = true := by
     unfold Input.len at h2; simp; omega
-  simp only [hc, if_false]
+  simp only [hc]
   apply backrefIcaseLoop_ok (fun p => p ≤ (inp.bytes.extract rs re).size) (fun p => p ≤ inp.len)
   · intro p hp
     obtain ⟨r, hr, hq⟩ := next_ascii (inp := ⟨inp.kind, inp.bytes.extract rs re, inp.unicode⟩)
@@ -722,7 +1020,7 @@ theorem backrefIcase_utf8 (h : Utf8Text inp cs) (fwd : Bool) {rs re pos : Nat} (
   unfold backrefIcase
   have hc : ¬ (decide (rs > re) || decide (re > inp.bytes.size)) = true := by
     have := h2.1; unfold Input.len at this; simp; omega
-  simp only [hc, if_false]
+  simp only [hc]
   obtain ⟨ds, hds, hsl⟩ := slice_boundaries h h1 h2 hle
   have hext : inp.bytes.extract rs re = text ds := by
     have : (inp.bytes.extract rs re).toList = encodeAll ds := by rw [h.bytes]; exact hsl
